@@ -80,6 +80,13 @@ class Report:
                 nr.instances.append(Instance(mapping[r.rid], '%s: %s' % (r.rid, i.name), i.status, i.detail, i.where, i.witness, i.nontrivial))
             nr.broken = list(r.broken)
             self.rules.append(nr)
+        # a rule that the sibling did not get to evaluate (its own analysis lost an anchor before) is undecided here as well - never silently absent
+        have = set(r.rid for r in other.rules)
+        for old_id, new_id in mapping.items():
+            if old_id not in have:
+                broken_own = [i.detail for r in other.rules for i in r.instances if i.status == 'unknown'][:1]
+                self.rule(new_id, '[shared with %s: %s]' % (old_id, why), floor=0).unknown(
+                    'shared rule', 'the sibling analysis did not reach %s%s' % (old_id, (': ' + broken_own[0]) if broken_own else ''))
         for u in other.units:
             if u not in self.units:
                 self.units.append(u)
